@@ -1,5 +1,6 @@
 """Drive one GEOPHIRES-X run through the real entry point (GEOPHIRESv3.main) inside a worker process."""
 import itertools
+import signal
 import json
 import os
 import sys
@@ -9,6 +10,10 @@ from types import SimpleNamespace
 from . import worker, snapshot, EXAMPLES_DIR
 
 _counter = itertools.count()
+
+
+class RunTimeout(Exception):
+    """a single run exceeded the hang guard: a harness-side bound, reported as a rejected input of type RunTimeout"""
 
 
 def render(params) -> str:
@@ -33,8 +38,22 @@ def _exc_info(e):
     return {'type': type(e).__name__, 'msg': str(e)[:300], 'frame': frame}
 
 
+def _drop_model_caches():
+    """Reservoir.Calculate is lru_cache'd on (self, model): it never hits across runs (fresh objects) but keeps up to 1 024
+    whole models alive per process - tens of GB over a thorough campaign.  Dropping it changes no behaviour."""
+    try:
+        from geophires_x.Reservoir import Reservoir
+        from geophires_x.CylindricalReservoir import CylindricalReservoir
+        for cls in (Reservoir, CylindricalReservoir):
+            cc = getattr(cls.Calculate, 'cache_clear', None)
+            if cc:
+                cc()
+    except Exception:
+        pass
+
+
 def run_text(text: str, want_snapshot=True, want_report=True, observer=None, cwd=None, keep_files=False,
-             newline=None):
+             newline=None, timeout_s=180):
     """Write `text` to a scratch input file and call main().  Returns a SimpleNamespace:
        ok, exc (dict|None), snap (Snap|None), report (str|None), json (dict|None), paths."""
     worker.init_worker()
@@ -60,17 +79,37 @@ def run_text(text: str, want_snapshot=True, want_report=True, observer=None, cwd
     sys.argv = ['', inp, out]
     if cwd:
         os.chdir(cwd)
+    def _on_alarm(signum, frame):
+        holder['timed_out'] = True
+        raise RunTimeout(f'run exceeded {timeout_s} s')
+
+    old_handler = None
+    if timeout_s:
+        try:
+            old_handler = signal.signal(signal.SIGALRM, _on_alarm)
+            signal.setitimer(signal.ITIMER_REAL, timeout_s)
+        except ValueError:  # not in the main thread
+            old_handler = None
     try:
         with worker.observer(obs), worker.quiet():
             G.main(enable_geophires_logging_config=False)
         res.ok = True
     except BaseException as e:  # SystemExit is how several failure paths report
-        if isinstance(e, (KeyboardInterrupt, MemoryError)):
+        if isinstance(e, KeyboardInterrupt):
             raise
         res.exc = _exc_info(e)
+        if isinstance(e, MemoryError):  # the worker's address-space guard: treated like the hang guard (inconclusive run)
+            res.exc['type'] = 'RunTimeout'
+            res.exc['msg'] = 'memory guard: ' + res.exc['msg']
+        if holder.get('timed_out'):  # the code under test may swallow the guard's exception and exit some other way
+            res.exc = {'type': 'RunTimeout', 'msg': f'run exceeded {timeout_s} s', 'frame': res.exc.get('frame')}
     finally:
+        if old_handler is not None:
+            signal.setitimer(signal.ITIMER_REAL, 0)
+            signal.signal(signal.SIGALRM, old_handler)
         sys.argv = stash_argv
         os.chdir(stash_cwd)
+        _drop_model_caches()
     res.snap = holder.get('snap')
     res.model = holder.get('model')
     if res.ok and want_report:
